@@ -114,10 +114,10 @@ func runC16(c *ctx, r *Report) error {
 	if !c.quick {
 		nLines, nSnip = 150000, 80000
 	}
-	r.Rule = fmt.Sprintf("(1) %d header lines: random diagnostics rendered by Error.Error() / PrettyPrint (messages and file names over an alphabet with ':', digits, ' [', ']', quotes, non-ASCII) and random adversarial lines; the shipped problem-matcher pattern (read from .github/actionlint-matcher.json, run with Go regexp) vs the model's matcher, and the header vs the model's header; (2) a workflow template with a user-controlled string at 25 echo sites × %d payloads (line breaks, CR, tabs, control and non-ASCII characters, ' [x]') through the real linter in default, -oneline and JSON modes: one header line per diagnostic, parsed back field by field, JSON round trip; (3) %d random (source, line, column) triples through PrettyPrint / GetTemplateFields (panic detector, shown line vs model); non-trivial = distinct lines that match the pattern / distinct triples that show a snippet", nLines, 9, nSnip)
+	r.Rule = fmt.Sprintf("(1) %d header lines: random diagnostics rendered by Error.Error() / PrettyPrint (messages and file names over an alphabet with ':', digits, ' [', ']', quotes, non-ASCII, printf verbs, template braces, escape sequences) and random adversarial lines; the shipped problem-matcher pattern (read from .github/actionlint-matcher.json, run with Go regexp) vs the model's matcher, and the header vs the model's header; (2) a workflow template with a user-controlled string at 25 echo sites × %d payloads (line breaks, CR, tabs, control and non-ASCII characters, ' [x]') through the real linter in default, -oneline and JSON modes: one header line per diagnostic, parsed back field by field, JSON round trip; (3) %d random (source, line, column) triples through PrettyPrint / GetTemplateFields (panic detector, shown line vs model); non-trivial = distinct lines that match the pattern / distinct triples that show a snippet", nLines, 13, nSnip)
 
 	// (1) matcher + header
-	alpha := []string{"a", "b", ":", " ", "[", "]", "1", "2", "\"", "é", ".", "/", "x y", " [", "] ", ": ", ":1:2: ", "\n"}
+	alpha := []string{"a", "b", ":", " ", "[", "]", "1", "2", "\"", "é", ".", "/", "x y", " [", "] ", ": ", ":1:2: ", "\n", "%", "%d", "%s", "%!v", "{{", "}}", "\\"}
 	randStr := func(n int) string {
 		var sb strings.Builder
 		for i := 0; i < n; i++ {
